@@ -24,7 +24,7 @@ TARGETS = {
 PROPS = {
     "C13": dict(
         targets=["c13_block2", "c13_block3", "c13_block4", "c13_eigen", "c13_complex", "c13_mixed"],
-        shard_mult={"quick": 3},
+        shard_mult={"quick": 3, "thorough": 3},
         level="exploration",
         rule="tape-decoded systems. Block part (b=2,3,4; static_matrix and Eigen blocks): graph families path/grid2/grid2x9/grid3/er/tree/band/star/union with an SPD "
              "M-matrix M (contrast<=10) expanded as M (x) I_b, M (x) B (B SPD, optionally with structural zeros), a symmetric strictly diagonally dominant block-structured "
